@@ -33,7 +33,7 @@ def variant_helper_by_cases(F, h):
     B = 1 << 53
     cases = [("Int", v) for v in (-2147483648, -42, -1, 0, 1, 42, 2147483647)] + [("UInt", v) for v in (0, 1, 4294967295)] + \
             [("LongLong", v) for v in (-B, -42, -1, 0, 1, 42, B)] + [("ULongLong", v) for v in (0, 1, 42, B)] + [("Double", v) for v in (-1.5, 0.0, 2.5)] + \
-            [("Bool", v) for v in (0, 1)] + [("QString", v) for v in ("", "text", "42")]
+            [("Bool", v) for v in (0, 1)] + [("QString", v) for v in ("", "text", "42", "2024-05-15T10:00:00")]
     bad = []
     for tname, v in cases:
         var = ("variant", tname, v)
@@ -54,7 +54,11 @@ def variant_helper_by_cases(F, h):
                 if short in ("toULongLong", "toUInt") and num:
                     return int(v) % (1 << (64 if short == "toULongLong" else 32))
                 if short in ("toLongLong", "toInt") and num:
-                    return int(v)
+                    bits = 64 if short == "toLongLong" else 32      # the conversion wraps: uint 4294967295 -> int -1
+                    return ((int(v) + (1 << (bits - 1))) % (1 << bits)) - (1 << (bits - 1))
+                if short in ("toDateTime", "toDate", "toTime"):
+                    import re as _re
+                    return ("qdt", v if (tname == "QString" and _re.match(r"^\d{4}-\d{2}-\d{2}", str(v))) else None)
                 if short == "toDouble" and num:
                     return ("double", float(v))
                 if short == "toString":
@@ -66,6 +70,23 @@ def variant_helper_by_cases(F, h):
                 if short == "isValid":
                     return 1
                 raise Unknown("QVariant::%s" % short)
+            if n.get("k") == "call" and n.get("ck") == "member" and isinstance(n.get("obj"), dict) and strip_tmpl(n.get("cls") or "") in ("QDateTime", "QDate", "QTime"):
+                o_ = cc.eval(n["obj"], env)
+                if isinstance(o_, tuple) and o_ and o_[0] == "qdt":
+                    short = strip_tmpl(n.get("callee") or "").split("::")[-1]
+                    if short == "isValid":
+                        return int(o_[1] is not None)
+                    if short == "isNull":
+                        return int(o_[1] is None)
+                    if o_[1] is not None and short in ("toOffsetFromUtc", "toUTC", "toLocalTime", "toTimeSpec", "toTimeZone"):
+                        return o_
+                    if short == "offsetFromUtc":
+                        return 0
+                    real_ = [a for a in n.get("args", []) if a.get("k") != "defaultarg"]
+                    if o_[1] is not None and short == "toString" and len(real_) == 1 and const_int(real_[0]) == 9 and "." not in str(o_[1]):
+                        # Qt::ISODateWithMs always writes the milliseconds: whatever the offset is, the text differs from one that has none
+                        return str(o_[1])[:19] + ".000<utc offset>"
+                    raise Unknown("what %s() makes of the date-like text %r" % (short, o_[1]))
             if is_call(n, "QJsonValue::fromVariant") and n.get("args"):
                 a = cc.eval(n["args"][0], env)
                 return ("json", "as-fromVariant", a)
@@ -85,7 +106,7 @@ def variant_helper_by_cases(F, h):
         kind = got[1]
         want = "text" if tname == "QString" else "number"
         same = kind == "as-fromVariant" and got[2] == var
-        if not same and not (kind == want and tname != "Bool" and (got[2] == v or got[2] == ("double", float(v)))):
+        if not same and not (kind == want and tname != "Bool" and (got[2] == v or (not isinstance(v, str) and got[2] == ("double", float(v))))):
             bad.append("%s %r comes out as %s %r" % ({"LongLong": "qlonglong", "ULongLong": "qulonglong"}.get(tname, tname.lower()), v, kind, got[2] if kind != "as-fromVariant" else "another value"))
     nm = strip_tmpl(h.name).split("::")[-1]
     if bad:
